@@ -146,6 +146,15 @@ CLAIMS = {
         'were repaired in /repo.',
    note='Trusted: Coq kernel/vm_compute; translator py/py2v/gen_raweffects.py (fail-closed classification tables: which calls may raise / mutate live state / touch only the scratch copy); CPython parser as reference. No axioms.',
    design='DESIGN.md section 4 C10'),
+ 'C13': dict(
+   technique='Coq proof: the reconcile recursion (in place / copy from mark / AST put, primitive fix, child recursion with wholesale fallback) returns a tree structurally equal to ANY edited tree; no change => no put and the marked tree intact; untouched in-place children intact; correspondence of put counts with the real Reconcile; mutation oracle with mark/reconcile rounds',
+   text='Proved (closed): for every marked tree and every edited tree over nodes tagged "object k of the mark" or "pure AST" the modelled recurse_node/recurse_children returns a structurally equal tree; '
+        'reconciling an unchanged tree performs zero puts and returns the mark with all formatting identities; an untouched child still in place under an in-tree parent is returned intact whatever '
+        'happens to its siblings. Partial: the puts themselves, slice-copy provenance and comments are decided by the oracle: up to 3 mark/reconcile rounds with 0..5 pure-AST mutations (replace / swap / '
+        'duplicate expressions, primitives, operators, statement insert / delete / replace / move / reverse / duplicate, foreign FST nodes, container resize); result must satisfy C01, equal the edited AST, '
+        'leave the source identical when nothing changed and keep text and comments of untouched top-level statements. One defect found (1 -> True not reconciled) was repaired in /repo.',
+   note='Trusted: Coq kernel/vm_compute; hand model Reconcile.v tied by correspondence of put counts on edits that do not move slice elements; ast.unparse/parse round trip as the definition of a valid edited tree; CPython parser. No axioms.',
+   design='DESIGN.md section 4 C13'),
 }
 
 checks = []
